@@ -132,7 +132,7 @@ CLAIMED = {
         "for Option's niche; C20_tag_range / C20_reachable — for every handle of every reachable world the tag byte is <= 0xD1, the tag tells the three storage states apart "
         "correctly and the branch-free length decode reads the handle's length. Checked by building, not proved: the size_of/align_of equalities are the crate's own const "
         "assertions (a build in each configuration checks them) and rustc's choice of niche is observed (Some(s).is_some() monitor). Configurations: the explorer's traces under "
-        "{default, no-default-features, all-features} x {dev, release} must be byte-identical to default-release and monitor-silent (quick: 3 extra configurations, thorough: all 5)."),
+        "{default, no-default-features, all-features} x {dev, release} must be byte-identical to default-release and monitor-silent (quick: 3 extra configurations, thorough: all 5); the library itself is built, hooks off, under all 8 combinations of std / serde / arbitrary."),
         note=TB + " rustc's layout of Option<LeanString> is observed, not proved.",
         technique="Coq: tag arithmetic over the regenerated LastByte table; build matrix with identical-trace comparison", design='§7 C20'),
     'C16': dict(text=T("Theorems: C16_utf8_valid_iff — the Unicode table 3-7 automaton accepts exactly the valid texts; C16_from_utf8 — accepted bytes yield exactly that text; "
